@@ -34,6 +34,10 @@
      temporary raw, n1 + n2 objects alive; on completion the sizes are exchanged; with no throw pending the model is
      Transfer.swap_deep ([C09_throwing_moves_swap_is_swap_deep]); a moved-from element can be visible
      ([C09_throwing_moves_swap_moved_from_visible_refuted], the same known finding F25);
+   - [C09_throwing_moves_move_assign_basic] / [..._move_assign_conserves] (MoveThrow.v): vec::move_n - the element part of a move
+     assignment between two inline storages - for the element type whose moves throw: after a throw at ANY move the source is still
+     a vector of n alive elements and the destination one of d_n alive elements (the sizes the size words, written only afterwards,
+     still claim), every other slot raw, n + d_n objects alive; on completion exactly the result of Transfer.move_n_spec;
    - [C09_tr_*] (SlotsTR.v): the trivially relocatable overloads (bitwise relocation, source slot raw afterwards): insert(pos, n,
      v) and insert(pos, first, last) with their handler are strong at every position for every range content, single-element
      insertion within capacity likewise; before the repair the gap stayed raw below size() ([C09_tr_insert_count_before_fix_refuted]);
@@ -60,7 +64,7 @@
    the element ledger, the allocator ledger, contents (strong operations: unchanged) and usability are checked. *)
 From Coq Require Import ZArith List Bool Sorted.
 From Amc Require Import Throw.
-From Amc Require EmplaceGrow ThrowMove SlotsTR Transfer AliasThrow Overlay SwapThrow.
+From Amc Require EmplaceGrow ThrowMove SlotsTR Transfer AliasThrow Overlay SwapThrow MoveThrow.
 From Amc Require Hint HintTV.
 From Amc.Gen Require HintGen SsetGen.
 From Amc Require SsetTV.
@@ -288,6 +292,31 @@ Theorem C09_throwing_moves_swap_moved_from_visible_refuted :
   exists m', SwapThrow.swap_deep_mt (Transfer.init2 3 4 1 3) (Some 1%nat) 5 0 3 7 1 = Threw m' /\ m' 0%nat = Moved /\
              Transfer.init2 3 4 1 3 0%nat = Live 10.
 Proof. exact SwapThrow.swap_deep_mt_strong_refuted. Qed.
+
+(* move assignment between two inline storages with throwing moves (MoveThrow.v) *)
+Theorem C09_throwing_moves_move_assign_basic :
+  forall m th bs n caps bd dn capd,
+  Transfer.Rng m bs n caps -> Transfer.Rng m bd dn capd -> Transfer.Disj bs caps bd capd -> n <= capd ->
+  match MoveThrow.move_n_mt m th bs n bd dn with
+  | Done m' _ => Transfer.content m' bd n = Transfer.content m bs n /\ Transfer.Rng m' bd n capd /\ Transfer.Rng m' bs 0 caps /\
+                 (forall j, ~ Transfer.inR bs caps j -> ~ Transfer.inR bd capd j -> m' j = m j)
+  | Threw m' => SwapThrow.ARng m' bs n caps /\ SwapThrow.ARng m' bd dn capd /\
+                (forall j, ~ Transfer.inR bs caps j -> ~ Transfer.inR bd capd j -> m' j = m j)
+  | Err _ => False end.
+Proof. exact MoveThrow.move_n_mt_basic. Qed.
+
+Theorem C09_throwing_moves_move_assign_conserves :
+  forall m th bs n caps bd dn capd,
+  Transfer.Rng m bs n caps -> Transfer.Rng m bd dn capd -> Transfer.Disj bs caps bd capd -> n <= capd ->
+  match MoveThrow.move_n_mt m th bs n bd dn with
+  | Done m' _ => Transfer.count_live m' bs caps + Transfer.count_live m' bd capd = n
+  | Threw m' => Transfer.count_live m' bs caps + Transfer.count_live m' bd capd = n + dn
+  | Err _ => False end.
+Proof. exact MoveThrow.move_n_mt_conserves. Qed.
+
+Theorem C09_throwing_moves_move_assign_is_move_n :
+  forall m first n d_first d_n, MoveThrow.move_n_mt m None first n d_first d_n = Transfer.lift (Transfer.move_n false m first n d_first d_n) None.
+Proof. exact MoveThrow.move_n_mt_none. Qed.
 
 (* ---- trivially relocatable element types ---- *)
 Theorem C09_tr_insert_count_anywhere_strong :
